@@ -357,6 +357,37 @@ example : Init (wl86 fixedV) ∧ (wl86 fixedV).v = fixedV ∧ (wl86 fixedV).dbLo
     ∃ t, (wl86 fixedV).unfinished t = true :=
   ⟨mkInit_Init _ _ _ _ _ (by decide), rfl, rfl, ⟨.w 0, by decide⟩⟩
 
+/-! ## the hypotheses of the theorems are satisfiable (non-vacuity), on the workload of DESIGN §8 no. 6
+and on the stale-entry workload, for the model of the CURRENT source -/
+
+/-- some reachable state satisfies the Boolean predicate `p` -/
+def reaches (s0 : St) (p : St → Bool) : Prop := ∃ s, Reachable s0 s ∧ p s = true
+
+theorem reaches_of_run (s0 : St) (p : St → Bool) (fuel : Nat) (h : p (runUntil p fuel s0) = true) : reaches s0 p :=
+  ⟨_, runUntil_reachable p fuel s0 Reachable.init, h⟩
+
+set_option maxRecDepth 100000 in
+/-- `C11_mutex`: a callback runs on an object that has a recorded write-owner -/
+example : reaches (wlST fixedV) (fun s => s.tids.any fun t => (s.thr t).pc == .inF && !(s.objs (s.thr t).use).wown.isEmpty) :=
+  reaches_of_run _ _ 60 (by decide)
+
+set_option maxRecDepth 100000 in
+/-- `C11_released`: every thread finishes (here: with every lock free, as the theorem says) -/
+example : reaches (wl86 fixedV) (fun s => s.tids.all fun t => !s.unfinished t) :=
+  reaches_of_run _ _ 400 (by decide)
+
+set_option maxRecDepth 100000 in
+/-- `C11_failed_dropped`: a failed transaction finishes Commit with a non-empty `writtenCaches` -/
+example : reaches (mkInit [(0, [{ name := 0, ro := false, cbOk := false }])] [false] (-1) true fixedV)
+    (fun s => (s.thr (.c 0)).pc == .cDone && (s.txs 0).failed && !(s.txs 0).written.isEmpty) :=
+  reaches_of_run _ _ 100 (by decide)
+
+set_option maxRecDepth 100000 in
+/-- `C11_no_scrapped`: a callback runs on an object marked dirty (a sibling goroutine of its own transaction failed) -/
+example : ∃ s, Reachable (mkInit [(0, [w0]), (0, [{ name := 0, ro := false, cbOk := false }])] [false] (-1) true fixedV) s ∧
+    ((s.thr (.w 0)).pc == .inF && (s.objs (s.thr (.w 0)).use).dirty == some 0) = true :=
+  witness_of_run _ (rep 11 (.w 0) ++ rep 11 (.w 1)) (by decide)
+
 /-! ## witnesses: the model of the PINNED code (and of the partial repairs) violates the property
 
 All by evaluation (`decide`) of a concrete schedule on a concrete workload; the same schedules are
